@@ -372,7 +372,9 @@ class KnotVector(Intface_KnotVector):
 
         """
         umin, umax = self[0], self[-1]
-        vector = tuple((knot - umin) / (umax - umin) for knot in self)
+        lenght = umax - umin
+        one = lenght / lenght  # all knots get the same number type
+        vector = tuple(((knot - umin) * one) / lenght for knot in self)
         self.internal = ImmutableKnotVector(vector)
         return self
 
